@@ -10,6 +10,7 @@ package props
 import (
 	"encoding/json"
 	"fmt"
+	"strings"
 
 	"verif/internal/gen"
 	"verif/internal/lib"
@@ -30,6 +31,35 @@ func c15Sizes(tier string) (units, per int) {
 
 // c15Recursive builds optional recursion of depth 1..3 with the recursive member first,
 // in the middle or last among its siblings, optionally through arrays and unions.
+// c15ShortcutRecursion: a type referring to itself (or to a partner type) from the value of a key
+// shortcut; optional shortcuts make the recursion legal, required ones do not - then Check must
+// refuse the schema and nothing is judged here (what Check accepts, Example must honour).
+func c15ShortcutRecursion(r *mon.Rng) *model.Schema {
+	s := &model.Schema{Types: []*model.TypeDef{{Name: "@childName", Root: model.Str("child-1").With(model.RStr("regex", "^child-"))}}}
+	target := "@node"
+	if r.Chance(1, 3) {
+		target = "@other"
+		s.Types = append(s.Types, &model.TypeDef{Name: "@other", Root: model.Obj(model.P("back", model.Ref("@node")))})
+	}
+	val := model.Ref(target)
+	switch r.Intn(4) {
+	case 0:
+		val = val.With(model.RBool("optional", true))
+	case 1:
+		val = model.Arr(model.Ref(target))
+	case 2:
+		val = model.Ref(target, "@leaf")
+		s.Types = append(s.Types, &model.TypeDef{Name: "@leaf", Root: model.Int("7")})
+	}
+	node := model.Obj(model.P("value", model.Int("1")), model.PShort("@childName", val))
+	if r.Bool() {
+		node.Props[0], node.Props[1] = node.Props[1], node.Props[0]
+	}
+	s.Types = append(s.Types, &model.TypeDef{Name: "@node", Root: node})
+	s.Root = model.Obj(model.P("tree", model.Ref("@node")))
+	return s
+}
+
 func c15Recursive(r *mon.Rng) *model.Schema {
 	s := &model.Schema{}
 	mk := func(self, target string, pos int, form int) *model.Node {
@@ -187,6 +217,9 @@ func c15Run(c *mon.Ctx, unit int) {
 		switch k % 6 {
 		case 0:
 			s, class = gen.Graph(r, 6), "type graph"
+			if k%12 == 6 {
+				s, class = c15ShortcutRecursion(r), "type graph (recursion below a key shortcut)"
+			}
 		case 1:
 			s, class = c15Recursive(r), "optional recursion"
 		case 2:
@@ -232,7 +265,14 @@ func c15Run(c *mon.Ctx, unit int) {
 			c.Count("schemas with ambiguous key shortcuts (Validate(Example) unspecified, not judged)", 1)
 			continue
 		}
-		if model.RequiredEdgeInCycle(s) {
+		illegal := false
+		if strings.HasPrefix(class, "type graph") {
+			// Check accepted a graph the recursion oracle rejects (and not for the known two-type
+			// reason): not the known class - its example is judged like any other
+			v, why := model.RecursionVerdict(s)
+			illegal = v == model.Reject && why != model.KnownTwoTypeRecursion
+		}
+		if model.RequiredEdgeInCycle(s) && !illegal {
 			// known finding C15/cutoff-required: the recursion cut-off counts visits per type and
 			// may then leave out a REQUIRED property whose type is in progress. The class is
 			// decided on the model; its canonical witness is probed in unit 0.
